@@ -58,6 +58,13 @@ PREFS = [('indent', '\t'), ('indent', '  '), ('keepComments', False), ('omitLast
          ('importHrefFormat', 'uri'), ('defaultPropertyName', False), ('keepUnknownAtRules', False), ('minimizeColorHash', False),
          ('lineNumbers', True), ('paranthesisSpacer', ''), ('selectorCombinatorSpacer', ''), ('omitLeadingZero', True)]
 TARGET_ENC = [None, None, 'ascii', 'utf-8', 'undefined', 'bogus', 'rot13', 'idna', 'utf-16']
+# sheets a fetcher hands out (by the last path component of the URL it is asked for) and sheets that import them
+IMPORTED = {'i1.css': 'a { color: red }', 'i2.css': '@import "i1.css"; b{x:1}', 'bad.css': '$ a{', 'e.css': '/* */',
+            'm.css': '@media print x {a{x:1}}'}
+IMPORT_SHEETS = ['@import "i1.css"; b{top:0}', '@import "i2.css"; @import "e.css"; c{x:1}', '@import "bad.css";',
+                 '@import "none.css"; a{}', '@import "m.css" print x; $']
+HREF = 'file:///base/main.css'
+MAXDEPTH = 2
 
 
 def _mk_targets():
@@ -141,6 +148,7 @@ class Env:
         self.cp = css_parser
         self.events = []
         self.parsers = []
+        self.depth = 0
         self.sers = {id(css_parser.ser): 0}
         self.keep = [css_parser.ser]
         self.prefcodes = {}
@@ -236,6 +244,38 @@ class Env:
             return orig_res(*a, **k)
         cp.resolveImports = res
 
+    # -- callbacks that re-enter the public API: fetchers, replaceUrls replacers, log handlers
+    def run_callback(self, cb, self_idx):
+        """executes the nested public calls of a callback (depth <= MAXDEPTH); their exceptions stay inside"""
+        if not cb or self.depth >= MAXDEPTH:
+            return
+        self.depth += 1
+        try:
+            for op in cb["ops"]:
+                op = list(op)
+                if op[0].startswith("parse") and op[-1] == "self":
+                    op[-1] = self_idx
+                if op[0].startswith("parse") and isinstance(op[-1], int) and op[-1] >= len(self.parsers):
+                    op[-1] = None
+                self.events.append(("nest_begin", op))
+                try:
+                    do_op(self, op)
+                    exc = None
+                except Exception as e:  # noqa
+                    exc = type(e).__name__
+                self.events.append(("nest_end", exc))
+        finally:
+            self.depth -= 1
+
+    def make_fetcher(self, idx, cb):
+        def fetcher(url):
+            self.run_callback(cb, idx)
+            if cb.get("raise"):
+                raise ValueError("fetcher failed")
+            text = IMPORTED.get(url.rsplit("/", 1)[-1])
+            return None if text is None else (None, text)
+        return fetcher
+
     def ser_label(self, x):
         if id(x) not in self.sers:
             self.sers[id(x)] = 1000 + len(self.sers)
@@ -275,7 +315,7 @@ class Env:
                 [x[0] for x in prods.PRODUCTIONS]]
 
 
-SETTERS = ("set_raise", "set_pref", "use_minified", "use_defaults", "set_ser", "set_dx", "new_parser")
+SETTERS = ("set_raise", "set_pref", "use_minified", "use_defaults", "set_ser", "set_dx", "new_parser", "log_handler")
 
 
 def canon(v):
@@ -317,14 +357,38 @@ def do_op(env, op):
         import css_parser.settings
         css_parser.settings.set('DXImageTransform.Microsoft', True)
     elif k == "new_parser":
-        env.parsers.append(cp.CSSParser(raiseExceptions=op[1]))
+        cb = op[2] if len(op) > 2 else None
+        idx = len(env.parsers)
+        env.parsers.append(cp.CSSParser(raiseExceptions=op[1], fetcher=env.make_fetcher(idx, cb) if cb else None))
+    elif k == "log_handler":
+        # the caller installs a logging handler that itself uses the library (e.g. re-parses what was reported)
+        import logging
+        cb = op[1]
+
+        class H(logging.Handler):
+            def emit(h, record):
+                env.run_callback(cb, None)
+        cp.log.addHandler(H())
+        cp.log.setLevel(logging.ERROR)
+    elif k == "replace_urls":
+        sheet = cp.css.CSSStyleSheet()
+        sheet.cssText = op[1]
+        cb = op[2]
+
+        def replacer(url):
+            env.run_callback(cb, None)
+            if cb.get("raise"):
+                raise ValueError("replacer failed")
+            return url + "x"
+        cp.replaceUrls(sheet, replacer)
+        return canon(sheet.cssText)
     elif k in ("parseString", "parseStyle", "parseFile", "parseUrl"):
         who = op[-1]
         if who is not None and who >= len(env.parsers):
             who = None
         target = env.parsers[who] if who is not None else cp
         if k == "parseString":
-            r = target.parseString(text_arg(op[1]), encoding=op[2])
+            r = target.parseString(text_arg(op[1]), encoding=op[2], href=HREF)
         elif k == "parseStyle":
             r = target.parseStyle(text_arg(op[1]))
         elif k == "parseFile":
@@ -423,9 +487,46 @@ def isolated_map(tasks):
 
 
 # ------------------------------------------------------------------------------------------- generators
-def gen_op(rng, indent_ok, nparsers):
+def gen_nested(rng, nparsers, depth=0):
+    """one public call made from inside a callback (never one of the caller's settings)"""
+    who = rng.choice(["self", "self", None] + list(range(nparsers)))
+    k = rng.random()
+    if k < 0.3:
+        return ["parseString", rng.choice(SHEETS_OK[:4] + SHEETS_BAD[:4] + IMPORT_SHEETS), None, who]
+    if k < 0.42:
+        return ["parseString", {"b": rng.choice(BYTES)}, rng.choice([None, "ascii"]), who]
+    if k < 0.55:
+        return ["parseStyle", rng.choice(STYLE_OK[:3] + STYLE_BAD[:4]), who]
+    if k < 0.62:
+        return ["parseFile", rng.choice(FILES), who]
+    if k < 0.7:
+        return ["ser_sheet", rng.randrange(3)]
+    if k < 0.76:
+        return ["csscombine", {"cssText": "a{color:red}", "targetencoding": rng.choice([None, "undefined", "ascii"])}]
+    label = rng.choice(["MediaQuery()", "MediaList()", "MediaList.appendMedium", "PropertyValue()", "CSSStyleSheet.cssText=",
+                        "Selector()", "CSSStyleDeclaration.cssText=", "CSSPageRule.cssText="])
+    _, p1, p2 = TARGETS[label]
+    return ["obj", label, rng.choice(p1), rng.choice(p2) if p2 else None]
+
+
+def gen_cb(rng, nparsers):
+    return {"ops": [gen_nested(rng, nparsers) for _ in range(rng.choice([1, 1, 2]))], "raise": rng.random() < 0.15}
+
+
+def gen_op(rng, indent_ok, nparsers, reentrant=False):
     r = rng.random()
     who = rng.choice([None, None] + list(range(nparsers))) if nparsers else None
+    if reentrant:
+        k = rng.random()
+        if k < 0.14:
+            return ["new_parser", rng.choice([False, False, True]), gen_cb(rng, nparsers + 1)]
+        if k < 0.28 and nparsers:
+            return ["parseString", rng.choice(IMPORT_SHEETS), rng.choice([None, None, "utf-8"]), rng.randrange(nparsers)]
+        if k < 0.32:
+            return ["replace_urls", rng.choice(['a{background:url(x)}', '@import "i1.css"; a{x:url(a) url(b)}', 'a{', 'a{x:1}']),
+                    gen_cb(rng, nparsers)]
+        if k < 0.35:
+            return ["log_handler", gen_cb(rng, nparsers)]
     if indent_ok and r > 0.9:
         return ["set_pref", "indentSpecificities", rng.choice([True, True, False])]
     if r < 0.16:
@@ -480,11 +581,38 @@ def gen_op(rng, indent_ok, nparsers):
     return ["obj", label, rng.choice(p1), rng.choice(p2) if p2 else None]
 
 
-def gen_history(rng, maxlen, indent_ok):
+def reentrant_histories():
+    """exhaustive-small: one parser whose fetcher calls back into the API (same parser / another one / the module-level
+    functions; depth 2 through a nested @import), under both values of the caller's flag and of the parser's own"""
+    inner = [["parseString", "a{x:1}", None], ["parseString", {"b": BYTES[0]}, None], ["parseStyle", "color: red; $"],
+             ["parseString", '@import "i1.css"; c{}', None], ["parseString", "$ a{", None]]
+    out = []
+    for praise in (False, True):
+        for flag in (True, False):
+            for target in ("self", 1, None):
+                for op in inner:
+                    for rz in (False, True):
+                        cb = {"ops": [op + [target]], "raise": rz}
+                        h = [["new_parser", praise, cb], ["new_parser", False]]
+                        if not flag:
+                            h.append(["set_raise", False])
+                        h.append(["parseString", IMPORT_SHEETS[1] if rz is False else IMPORT_SHEETS[0], None, 0])
+                        out.append(h)
+    plain = {"ops": [["parseString", "a{x:1}", None, None], ["obj", "MediaQuery()", "print x", None]], "raise": False}
+    for cbx in (plain, {"ops": [["parseString", {"b": BYTES[0]}, None, 0]], "raise": False},
+                {"ops": [["parseStyle", "x:1;$", 0]], "raise": True}):
+        out.append([["new_parser", False], ["replace_urls", '@import "i1.css"; a{background:url(x) url(y)}', cbx]])
+        out.append([["new_parser", False], ["log_handler", cbx], ["set_raise", False], ["obj", "CSSStyleSheet.cssText=", "$", None],
+                    ["parseString", "a{x:1;;$} $", None, 0]])
+        out.append([["new_parser", False, plain], ["log_handler", cbx], ["parseString", IMPORT_SHEETS[2], None, 0]])
+    return out
+
+
+def gen_history(rng, maxlen, indent_ok, reentrant=False):
     n = rng.randint(1, maxlen)
     hist, np_ = [], 0
     for _ in range(n):
-        op = gen_op(rng, indent_ok, np_)
+        op = gen_op(rng, indent_ok, np_, reentrant)
         if op[0] == "new_parser":
             np_ += 1
         hist.append(op)
@@ -523,9 +651,34 @@ def coq_bool(b):
     return "true" if b else "false"
 
 
+class Untranslatable(Exception):
+    pass
+
+
+def nest_items(evs):
+    """flat event list -> items; a nested public call becomes ("nest", op, [items], exc)"""
+    stack = [[]]
+    ops = []
+    for e in evs:
+        if e[0] == "nest_begin":
+            ops.append(e[1])
+            stack.append([])
+        elif e[0] == "nest_end":
+            if len(stack) < 2:
+                raise Untranslatable("unbalanced callback markers")
+            items = stack.pop()
+            stack[-1].append(("nest", ops.pop(), items, e[1]))
+        else:
+            stack[-1].append(tuple(e))
+    if len(stack) != 1:
+        raise Untranslatable("callback still running at the end of the call")
+    return stack[0]
+
+
 def to_model(hist, res):
-    """-> Coq term  first_disagreement current 0 [...] G0   for one traced history (or None + reason)"""
+    """-> Coq term  first_disagreement current <fuel> 0 [...] G0   for one traced history (or None + reason)"""
     toks = {}
+    size = [0]
 
     def tok(t):
         key = json.dumps(t)
@@ -539,9 +692,10 @@ def to_model(hist, res):
             c["ser"], c["prefs"], c["level"], c["memo"], c["sellevel"], coq_bool(c["dx"] > 0),
             "; ".join(["(true, true)"] * nparsers))
 
-    def actions(evs, indent_on, cells, exc, final=True):
+    def script(items, exc, tail=()):
         out = []
-        for e in evs:
+        for e in items:
+            size[0] += 1
             if e[0] == "init":
                 out.append("Do EvInit")
             elif e[0] == "pop":
@@ -553,66 +707,73 @@ def to_model(hist, res):
             elif e[0] == "take":
                 out.append("Do EvTake")
             elif e[0] == "alien":
-                return None
-        if indent_on:
-            out.append("Do (EvSer %d%%N (%d)%%Z)" % (cells["memo"], cells["sellevel"]))
+                raise Untranslatable("stash cleared outside ProdParser.__init__: %r" % (e,))
+            elif e[0] == "nest":
+                out.append("Nest (%s)" % call_term(e[1], e[2], e[3], ()))
+        out.extend(tail)
         out.append("Exc" if exc else "Ret")
-        return out
+        return "(script [%s])" % "; ".join(out)
+
+    def call_term(op, items, exc, tail, cells=None):
+        """the model call of a non-setting operation whose (nested) trace is `items`"""
+        size[0] += 2
+        k = op[0]
+        if k == "csscombine":
+            # phases: parse | resolveImports, encoding | serialise under the swapped serializer
+            mid = [i for i, e in enumerate(items) if e[0] == "mid"]
+            sw = [i for i, e in enumerate(items) if e[0] == "setser"]
+            p1 = items[:mid[0]] if mid else items
+            pm = items[mid[0]:sw[0]] if mid and sw else (items[mid[0]:] if mid else [])
+            p2 = items[sw[0]:] if sw else []
+            fresh = items[sw[0]][1] if sw else 999
+            e1 = bool(exc) and not mid
+            em = bool(exc) and bool(mid) and not sw
+            e2 = bool(exc) and bool(sw)
+            fp = cells["prefs"] if cells is not None and cells["ser"] == fresh else 2
+            strip = lambda xs: [x for x in xs if x[0] not in ("mid", "setser")]   # noqa
+            return "CCombine %d%%N %d%%N %s %s %s" % (fresh, fp, script(strip(p1), e1, tail), script(strip(pm), em, tail),
+                                                      script(strip(p2), e2))
+        if any(e[0] == "setser" for e in items):
+            raise Untranslatable("serializer swapped by an entry point other than csscombine")
+        body = script([e for e in items if e[0] != "mid"], exc, tail)
+        if k.startswith("parse"):
+            who = op[-1]
+            return "CParse %s %s" % ("None" if who is None else "(Some %d%%nat)" % who, body)
+        return "CPlain %s" % body
     steps = []
     nparsers = 0
     prev = res["start"]
-    for op, st in zip(hist, res["steps"]):
-        c = st["cells"]
-        k = op[0]
-        indent_on = prev["prefs"] % 2 == 1
-        if k == "set_raise":
-            call = "CSetRaising %s" % coq_bool(op[1])
-        elif k in ("set_pref", "use_minified", "use_defaults"):
-            call = "CSetPrefs %d%%N" % c["prefs"]
-            if st["exc"]:
-                return None, "a settings operation raised"
-        elif k == "set_ser":
-            call = "CSetSer %d%%N %d%%N" % (c["ser"], c["prefs"])
-        elif k == "set_dx":
-            call = "CSetDX"
-        elif k == "new_parser":
-            call = "CNewParser %s" % coq_bool(op[1])
-            nparsers += 1
-        else:
-            evs = st["events"]
-            if any(e[0] == "alien" for e in evs):
-                return None, "stash cleared outside ProdParser.__init__: %r" % ([e for e in evs if e[0] == "alien"][:1],)
-            if k == "csscombine":
-                # phases: parse | resolveImports, encoding | serialise under the swapped serializer
-                mid = [i for i, e in enumerate(evs) if e[0] == "mid"]
-                sw = [i for i, e in enumerate(evs) if e[0] == "setser"]
-                p1 = evs[:mid[0]] if mid else evs
-                pm = evs[mid[0]:sw[0]] if mid and sw else (evs[mid[0]:] if mid else [])
-                p2 = evs[sw[0]:] if sw else []
-                fresh = evs[sw[0]][1] if sw else 999
-                e1 = bool(st["exc"]) and not mid
-                em = bool(st["exc"]) and bool(mid) and not sw
-                e2 = bool(st["exc"]) and bool(sw)
-                fp = c["prefs"] if c["ser"] == fresh else 2
-                a1, am, a2 = actions(p1, indent_on, c, e1), actions(pm, indent_on, c, em), actions(p2, False, c, e2)
-                fuel = len(evs) + 4
-                call = "CCombine %d%%N %d%%N (script [%s]) (script [%s]) (script [%s]) %d" % (
-                    fresh, fp, "; ".join(a1), "; ".join(am), "; ".join(a2), fuel)
+    try:
+        for op, st in zip(hist, res["steps"]):
+            c = st["cells"]
+            k = op[0]
+            indent_on = prev["prefs"] % 2 == 1
+            if k == "set_raise":
+                call = "CSetRaising %s" % coq_bool(op[1])
+            elif k in ("set_pref", "use_minified", "use_defaults"):
+                call = "CSetPrefs %d%%N" % c["prefs"]
+                if st["exc"]:
+                    return None, "a settings operation raised"
+            elif k == "set_ser":
+                call = "CSetSer %d%%N %d%%N" % (c["ser"], c["prefs"])
+            elif k == "set_dx":
+                call = "CSetDX"
+            elif k == "new_parser":
+                call = "CNewParser %s" % coq_bool(op[1])
+                nparsers += 1
+            elif k == "log_handler":
+                call = "CPlain (script [Ret])"          # logging configuration: no cell of the model
             else:
-                a = actions([e for e in evs if e[0] not in ("mid", "setser")], indent_on, c, bool(st["exc"]))
-                if any(e[0] == "setser" for e in evs):
-                    return None, "serializer swapped by an entry point other than csscombine"
-                fuel = len(a) + 2
-                if k.startswith("parse"):
-                    who = op[-1]
-                    if who is not None and who >= nparsers:
-                        who = None
-                    call = "CParse %s (script [%s]) %d" % ("None" if who is None else "(Some %d%%nat)" % who, "; ".join(a), fuel)
-                else:
-                    call = "CPlain (script [%s]) %d" % ("; ".join(a), fuel)
-        steps.append("(%s, %s)" % (call, g(c, nparsers)))
-        prev = c
-    return "first_disagreement current 0 [%s] G0" % "; ".join(steps), None
+                op2 = list(op)
+                if k.startswith("parse") and op2[-1] is not None and op2[-1] >= nparsers:
+                    op2[-1] = None
+                tail = ("Do (EvSer %d%%N (%d)%%Z)" % (c["memo"], c["sellevel"]),) if indent_on else ()
+                call = call_term(op2, nest_items(st["events"]), st["exc"], tail, c)
+            steps.append("(%s, %s)" % (call, g(c, nparsers)))
+            prev = c
+    except Untranslatable as e:
+        return None, str(e)
+    return "first_disagreement current %d 0 [%s] G0" % (size[0] + 20, "; ".join(steps)), None
 
 
 def coq_eval_parallel(terms, batch=250):
@@ -719,6 +880,10 @@ def setup_globals():
     global TARGETS, LABELS, FILES, URLS
     import logging
     import css_parser
+    silent = logging.getLogger("C06SILENT")     # public API: setLog; nothing is written to stderr at any level
+    silent.addHandler(logging.NullHandler())
+    silent.propagate = False
+    css_parser.log.setLog(silent)
     css_parser.log.setLevel(logging.FATAL)
     WORK.mkdir(parents=True, exist_ok=True)
     ok = WORK / "ok.css"
@@ -765,18 +930,20 @@ def run(ctx):
     hists = [c["hist"] for c in corpus]
     n_corpus = len(hists)
     hists += [[op] for op in singles]
+    reent = reentrant_histories()
+    hists += reent
     # exhaustive pairs: (every call that can leave something behind) x (every call), thorough: all pairs
     contaminators = [op for op in singles if op[0] == "obj" and op[1].startswith(("MediaQuery", "MediaList"))
                      or op[0] in ("csscombine", "parseFile") or (op[0] == "parseString" and isinstance(op[1], dict))]
     if thorough:
-        pairs = [[a, b2] for a in contaminators[::2] for b2 in singles[ctx.seed % 24::24]]
+        pairs = [[a, b2] for a in contaminators[::2] for b2 in singles[ctx.seed % 12::12]]
     else:
         pairs = [[a, b2] for a in contaminators[ctx.seed % 7::7] for b2 in singles[ctx.seed % 97::97]]
     hists += pairs
     n_exh = len(hists) - n_corpus
-    nrand = 2500 if thorough else 500
+    nrand = 6000 if thorough else 500
     for i in range(nrand):
-        hists.append(gen_history(rng, 8 if thorough else 6, indent_ok=(i % 5 == 0)))
+        hists.append(gen_history(rng, 8 if thorough else 6, indent_ok=(i % 5 == 0), reentrant=(i % 3 == 1)))
     # ---------------------------------------------------------------- correspondence (traced runs vs model)
     traced = isolated_map([{"hist": h, "instrument": True, "no_canaries": True} for h in hists])
     terms, idx, untranslatable = [], [], []
@@ -863,7 +1030,7 @@ def run(ctx):
         ts = time.time()
         r2 = ctx.rng
         while time.time() - ts < tcap:
-            batch = [gen_history(r2, 5, indent_ok=False) for _ in range(240)]
+            batch = [gen_history(r2, 5, indent_ok=False, reentrant=(n % 2 == 0)) for n in range(240)] + reentrant_histories()[::3]
             batch += [[a, b2] for a in r2.sample(contaminators, min(8, len(contaminators))) for b2 in r2.sample(singles, 4)]
             for h, v, r in check_histories(batch):
                 v = [x for x in v if not ctx.match_known(x[0] + " :: " + x[1])]
@@ -878,8 +1045,12 @@ def run(ctx):
         "histories": len(hists),
         "calls_compared_with_model": sum(len(hists[i]) for i in idx) if model_ok else 0,
         "distinct_nontrivial": nontrivial,
-        "rule": "histories = corpus (%d) + every operation of the alphabet alone and pairs contaminator x operation "
-                "(%d, exhaustive-small part) + %d random histories of 1..%d calls (1 in 5 may switch indentSpecificities); "
+        "reentrant_histories": len(reent) + nrand // 3,
+        "rule": "histories = corpus (%d) + every operation of the alphabet alone, pairs contaminator x operation and the "
+                "re-entrant set (fetcher / replaceUrls replacer / log handler calling back into the API on the same parser, "
+                "another parser or the module functions, depth <= 2; both flag values) "
+                "(%d, exhaustive-small part) + %d random histories of 1..%d calls (1 in 5 may switch indentSpecificities, "
+                "1 in 3 use callbacks); "
                 "each followed by %d canary operations compared with a pristine fork that performed only the caller's "
                 "settings; non-trivial = histories in which some call raised or handed a token to the stash/push-back list"
                 % (n_corpus, n_exh, nrand, 8 if thorough else 6, len(CANARIES)),
@@ -921,6 +1092,8 @@ ASSUME = [
     "Print Assumptions of every theorem in props/C06.v: Closed under the global context (see coverage.print_assumptions)",
     "history_independent is proved for histories in which the caller never switches prefs.indentSpecificities on "
     "(history_independent_partial); with it on the statement is refuted (history_independent_refuted, open finding)",
-    "a caller-installed serializer is a fresh CSSSerializer object; Python logging handlers and module reloads are not covered; "
+    "callbacks (fetcher, replaceUrls replacer, logging handler) may call any public entry point, nested to any depth in the "
+    "model and to depth 2 in the generated histories, but do not change the caller's settings themselves (TNestSet)",
+    "a caller-installed serializer is a fresh CSSSerializer object; module reloads are not covered; "
     "settings.set('DXImageTransform.Microsoft', True) is a persistent caller setting",
 ]
